@@ -446,7 +446,11 @@ func runStart(rep *vh.Report, env vh.Env, worlds []*world, pc *perClass, i int) 
 		// escaped delimiters (%2f -> /): the statement does not say how the target is written down
 		rep.Count("a_dontcare_recorded_reencodes_delimiters", 1)
 	} else {
-		rep.Violate(streamStart, i, "start: recorded-uri-differs-from-request-target"+sigc,
+		form := " form=origin"
+		if g.Absolute {
+			form = " form=absolute"
+		}
+		rep.Violate(streamStart, i, "start: recorded-uri-differs-from-request-target"+form,
 			fmt.Sprintf("flow started on %q but the flow record holds %q", clip(target), clip(fl.Rec.RedirectURI)), kc)
 	}
 
@@ -474,7 +478,7 @@ func runStart(rep *vh.Report, env vh.Env, worlds []*world, pc *perClass, i int) 
 	sv, set, cleared := cb.Cookie(w.ps.CookieName)
 	if !(set && !cleared && sv != "") || cb.Status != 302 {
 		kc.Outcome = "honest-flow-refused"
-		rep.Violate(streamStart, i, "callback: honest-flow-refused"+sigc, fmt.Sprintf("own state + own cookie + redeemable code + admitted user answered %d without a session", cb.Status), kc)
+		rep.Violate(streamStart, i, "callback: honest-flow-refused", fmt.Sprintf("own state + own cookie + redeemable code + admitted user answered %d without a session", cb.Status), kc)
 		return
 	}
 	pc.add(&pc.completed, g.Class)
@@ -512,7 +516,7 @@ func runStart(rep *vh.Report, env vh.Env, worlds []*world, pc *perClass, i int) 
 		rep.Count("a_location_denotes_recorded", 1)
 	} else {
 		good = false
-		rep.Violate(streamStart, i, "callback: location-differs-from-recorded"+sigc,
+		rep.Violate(streamStart, i, "callback: location-differs-from-recorded",
 			fmt.Sprintf("flow record holds %q, the callback redirects to %q", clip(fl.Rec.RedirectURI), clip(loc)), kc)
 	}
 
